@@ -3,6 +3,8 @@ package checks
 import (
 	"encoding/pem"
 	"fmt"
+	ccpb "github.com/google/go-tdx-guest/proto/checkconfig"
+	"github.com/google/go-tdx-guest/verify"
 	"math/big"
 
 	"verif/sim/core"
@@ -253,6 +255,25 @@ func c05Run(r *core.Run) {
 		r.Probe("revocation_without_collateral")
 		r.EndItem()
 	}
+	// the same request expressed as a root-of-trust configuration (check_crl without get_collateral): the
+	// conversion must not quietly drop the revocation request
+	if r.Item("options:revocation-without-collateral-via-root-of-trust") {
+		opts, err := verify.RootOfTrustToOptions(&ccpb.RootOfTrust{Cabundles: []string{string(w.A.Root.PEM())}, CheckCrl: true, GetCollateral: false})
+		r.Eval()
+		r.State("options:revocation-without-collateral-via-root-of-trust")
+		if err == nil && opts != nil {
+			opts.Getter, opts.Now = w.PCS, timeSet(w.Times)
+			o := verifyRaw(raw, opts)
+			r.Eventf("root-of-trust{check_crl, no get_collateral} -> %s", errClass(o))
+			if o.Accepted() {
+				r.Violate("C05:accepted:revocation-without-collateral-via-root-of-trust", "options built by RootOfTrustToOptions from {check_crl: true, get_collateral: false} accepted an (honest) quote: the revocation request was dropped on the way, no CRL was consulted")
+			}
+		} else {
+			r.Eventf("root-of-trust{check_crl, no get_collateral} refused by the converter: %v", err)
+		}
+		r.Probe("revocation_without_collateral_via_root_of_trust")
+		r.EndItem()
+	}
 	// a long-lived options value: after a verification with collateral and revocation, switching
 	// collateral off while revocation stays on must fail again (no leftover CRLs)
 	if r.Item("options:revocation-without-collateral-after-collateral") {
@@ -303,6 +324,6 @@ func init() {
 			return 96
 		},
 		Run:       c05Run,
-		MustProbe: []string{"leaf_serial_listed_in_authentic_pck_crl", "qe_signer_revoked_separately", "revocation_without_collateral", "two_trusted_roots"},
+		MustProbe: []string{"leaf_serial_listed_in_authentic_pck_crl", "qe_signer_revoked_separately", "revocation_without_collateral", "two_trusted_roots", "revocation_without_collateral_via_root_of_trust"},
 	})
 }
